@@ -13,17 +13,21 @@
 #include <dune/common/bigunsignedint.hh>
 #include <dune/common/hash.hh>
 #include <cstring>
+#include <stdexcept>
+#include <type_traits>
+#include <utility>
 #include <csetjmp>
 #include <csignal>
 #include <sys/time.h>
 
 // watchdog for operations the property requires to terminate ("never looping"): a compound division whose
 // divisor aliases the dividend must return at once; if it does not, the case is reported as HANG and the
-// driver goes on (siglongjmp out of the pure computation loop).
+// driver goes on (siglongjmp out of the pure computation loop).  The timer counts the CPU time of this process
+// (ITIMER_VIRTUAL), so a heavily loaded machine cannot make a terminating operation look like a hang.
 static sigjmp_buf hang_env;
 static void on_alarm(int) { siglongjmp(hang_env, 1); }
-static void arm(long usec) { struct itimerval it = {{0, 0}, {usec / 1000000, usec % 1000000}}; setitimer(ITIMER_REAL, &it, nullptr); }
-static void disarm() { struct itimerval it = {{0, 0}, {0, 0}}; setitimer(ITIMER_REAL, &it, nullptr); }
+static void arm(long usec) { struct itimerval it = {{0, 0}, {usec / 1000000, usec % 1000000}}; setitimer(ITIMER_VIRTUAL, &it, nullptr); }
+static void disarm() { struct itimerval it = {{0, 0}, {0, 0}}; setitimer(ITIMER_VIRTUAL, &it, nullptr); }
 
 // Values are written/read through the object representation (an array of n uint16_t digits,
 // little endian -- the same representation MPITraits<bigunsignedint<k>> communicates), so that
@@ -68,15 +72,124 @@ static std::string canon_double(double v)
   char buf[64]; std::snprintf(buf, sizeof buf, "%lld %d", mi, e); return buf;
 }
 
+static std::vector<std::string> split(const std::string& s, char c)
+{
+  std::vector<std::string> r; std::string cur;
+  for (char ch : s) { if (ch == c) { r.push_back(cur); cur.clear(); } else cur += ch; }
+  r.push_back(cur); return r;
+}
+
+// compound operator with an operand of arbitrary type (another object -- possibly the receiver itself -- or a built-in)
+template<class B, class Y>
+static bool compound(const std::string& o, B& x, const Y& y)
+{
+  B* ret = nullptr;
+  if (o == "add") ret = &(x += y); else if (o == "sub") ret = &(x -= y); else if (o == "mul") ret = &(x *= y);
+  else if (o == "div") ret = &(x /= y); else if (o == "mod") ret = &(x %= y);
+  else if (o == "and") ret = &(x &= y); else if (o == "or") ret = &(x |= y); else if (o == "xor") ret = &(x ^= y);
+  return ret == &x;     // the compound operators return *this
+}
+template<class B, class X, class Y>
+static B binary(const std::string& o, const X& x, const Y& y)
+{
+  if (o == "add") return x + y; if (o == "sub") return x - y; if (o == "mul") return x * y;
+  if (o == "div") return x / y; if (o == "mod") return x % y;
+  if constexpr (std::is_same<X, B>::value) { if (o == "and") return x & y; if (o == "or") return x | y; if (o == "xor") return x ^ y; }
+  throw std::runtime_error("binary op");
+}
+template<class B, class X, class Y>
+static bool compare(const std::string& c, const X& x, const Y& y)
+{
+  if (c == "lt") return x < y; if (c == "le") return x <= y; if (c == "gt") return x > y; if (c == "ge") return x >= y;
+  if (c == "eq") return x == y; return x != y;
+}
+
+// object histories: k prog r0,r1,r2 tok,tok,...   (instruction set of coq/C10_Model.v c10_instr)
+template<int k>
+static std::string run_prog(const std::vector<std::string>& t)
+{
+  using B = Dune::bigunsignedint<k>;
+  std::vector<B> r;
+  for (auto& h : split(t[2], ',')) r.push_back(from_hex<k>(h));
+  std::string ev, flaw;
+  // every statement must return ("never looping"): a history that does not finish within 3 s is reported as HANG
+  if (sigsetjmp(hang_env, 1)) return "HANG (history did not finish within 3 s) e=" + ev;
+  std::signal(SIGVTALRM, on_alarm);
+  arm(3000000);
+  struct Disarm { ~Disarm() { disarm(); } } disarm_at_exit;
+  for (auto& tok : split(t[3], ',')) {
+    auto f = split(tok, ':');
+    auto reg = [&](int i) -> B& { return r.at(std::stoi(f[i])); };
+    const std::string& I = f[0];
+    const std::vector<B> before = r;
+    bool threw = false;
+    try {
+      if (I == "C") { if (!compound(f[1], reg(2), reg(3))) flaw += " (compound operator does not return *this)"; }
+      else if (I == "B") reg(2) = binary<B>(f[1], reg(3), reg(4));
+      else if (I == "I") { B& ret = ++reg(1); if (&ret != &reg(1)) flaw += " (++ does not return *this)"; }
+      else if (I == "N") reg(1) = ~reg(2);
+      else if (I == "L") reg(1) = reg(2) << std::stoi(f[3]);
+      else if (I == "R") reg(1) = reg(2) >> std::stoi(f[3]);
+      else if (I == "A") reg(1) = reg(2);                                        // copy assignment (also self)
+      else if (I == "M") reg(1) = std::move(reg(2));                             // move assignment (also self)
+      else if (I == "K") { const B& src = reg(2); B tmp(src); reg(1) = tmp; }    // copy construction
+      else if (I == "X") { B tmp(std::move(reg(2))); reg(1) = tmp; }             // move construction
+      else if (I == "S") { using std::swap; swap(reg(1), reg(2)); }
+      else if (I == "U") {
+        std::uintmax_t u = std::stoull(f[3], nullptr, 16);
+        const std::string ty = f.size() > 4 ? f[4] : "ull";
+        bool ok = true;
+        if (ty == "uc") ok = compound(f[1], reg(2), (unsigned char) u); else if (ty == "us") ok = compound(f[1], reg(2), (unsigned short) u);
+        else if (ty == "u") ok = compound(f[1], reg(2), (unsigned) u); else if (ty == "ul") ok = compound(f[1], reg(2), (unsigned long) u);
+        else if (ty == "bool") ok = compound(f[1], reg(2), (bool) u); else ok = compound(f[1], reg(2), u);
+        if (!ok) flaw += " (compound operator does not return *this)";
+      }
+      else if (I == "G") {
+        long long y = std::stoll(f[3]);
+        const std::string ty = f.size() > 4 ? f[4] : "ll";
+        if (ty == "sc") compound(f[1], reg(2), (signed char) y); else if (ty == "s") compound(f[1], reg(2), (short) y);
+        else if (ty == "i") compound(f[1], reg(2), (int) y); else if (ty == "l") compound(f[1], reg(2), (long) y);
+        else compound(f[1], reg(2), y);
+      }
+      else if (I == "V") { std::uintmax_t u = std::stoull(f[3], nullptr, 16); reg(2) = binary<B>(f[1], u, reg(2)); }
+      else if (I == "Q") { const B& a = reg(2); const B& b = reg(3); ev += compare<B>(f[1], a, b) ? '1' : '0'; }
+      else if (I == "QU") { std::uintmax_t u = std::stoull(f[3], nullptr, 16); ev += compare<B>(f[1], reg(2), u) ? '1' : '0'; }
+      else if (I == "QR") { std::uintmax_t u = std::stoull(f[3], nullptr, 16); const B& a = reg(2);
+                            ev += (f[1] == "eq" ? (u == a) : (u != a)) ? '1' : '0'; }   // built-in on the left (rewritten candidate)
+      else return "UNKNOWN-INSTR " + tok;
+    } catch (Dune::MathError&) { ev += 'M'; threw = true; }
+    catch (Dune::Exception&) { ev += 'X'; threw = true; }
+    if (threw) for (std::size_t i = 0; i < r.size(); ++i) if (!(r[i] == before[i])) { flaw += " (object modified by a throwing operation)"; break; }
+  }
+  std::string out;
+  for (std::size_t i = 0; i < r.size(); ++i) out += (i ? "," : "") + to_hex(r[i]);
+  return out + " e=" + ev + flaw;
+}
+
 template<int k>
 static std::string run(const std::vector<std::string>& t)
 {
   using B = Dune::bigunsignedint<k>;
   const std::string& op = t[1];
   try {
-    if (op == "assign") { std::uintmax_t x = std::stoull(t[2], nullptr, 16); return to_hex(B(x)); }
+    if (op == "assign") {
+      std::uintmax_t x = std::stoull(t[2], nullptr, 16);
+      const std::string ty = t.size() > 3 ? t[3] : "ull";     // the unsigned built-in types (the value fits the type)
+      if (ty == "uc") return to_hex(B((unsigned char) x)); if (ty == "us") return to_hex(B((unsigned short) x));
+      if (ty == "u") return to_hex(B((unsigned) x)); if (ty == "ul") return to_hex(B((unsigned long) x));
+      if (ty == "bool") return to_hex(B((bool) x)); if (ty == "char16") return to_hex(B(char16_t(x)));
+      if (ty == "implicit") { B b = x; return to_hex(b); }      // copy-initialisation through the converting constructor
+      return to_hex(B(x));
+    }
+    if (op == "prog") return run_prog<k>(t);
+    if (op == "layout") {
+      std::ostringstream os;
+      os << sizeof(B) << " " << std::is_trivially_copyable<B>::value << " " << std::is_standard_layout<B>::value;
+      return os.str();
+    }
     if (op == "signed") {
       long long x = std::stoll(t[2]);
+      if (t.size() > 3 && t[3] == "ptr") return to_hex(B(x, nullptr));   // the defaulted enable_if argument given explicitly
       if (t.size() > 3 && t[3] == "int") return to_hex(B(int(x)));
       if (t.size() > 3 && t[3] == "short") return to_hex(B(short(x)));
       if (t.size() > 3 && t[3] == "schar") return to_hex(B((signed char)(x)));
@@ -125,7 +238,7 @@ static std::string run(const std::vector<std::string>& t)
       B x = from_hex<k>(t[3]);
       const std::string& o = t[2];
       if (sigsetjmp(hang_env, 1)) return "HANG (operator did not return within 0.25 s)";
-      std::signal(SIGALRM, on_alarm);
+      std::signal(SIGVTALRM, on_alarm);
       arm(250000);
       try {
         if (o == "add") x += x; else if (o == "sub") x -= x; else if (o == "mul") x *= x;
@@ -145,19 +258,21 @@ static std::string run(const std::vector<std::string>& t)
       return r;
     }
     if (op == "mixl" || op == "mixr") {
-      // mixed operations with a built-in unsigned on either side: t[2] in {add,sub,mul,div,mod}, t[3] big, t[4] u64 hex
+      // mixed operations with a built-in unsigned on either side: t[2] op, t[3] big, t[4] hex value, t[5] fuel, t[6] built-in type
       B a = from_hex<k>(t[3]); std::uintmax_t u = std::stoull(t[4], nullptr, 16);
       const std::string& o = t[2];
       bool l = (op == "mixl");
-      if (o == "add") return to_hex(l ? a + u : u + a);
-      if (o == "sub") return to_hex(l ? a - u : u - a);
-      if (o == "mul") return to_hex(l ? a * u : u * a);
-      if (o == "div") return to_hex(l ? a / u : u / a);
-      if (o == "mod") return to_hex(l ? a % u : u % a);
-      if (o == "and" && l) return to_hex(a & u);
-      if (o == "or" && l) return to_hex(a | u);
-      if (o == "xor" && l) return to_hex(a ^ u);
-      return "UNKNOWN-OP";
+      const std::string ty = t.size() > 6 ? t[6] : "ull";
+      auto go = [&](auto v) -> std::string {
+        using V = decltype(v);
+        if (l) return to_hex(binary<B, B, V>(o, a, v));
+        if (o == "and" || o == "or" || o == "xor") return "UNKNOWN-OP";
+        return to_hex(binary<B, V, B>(o, v, a));
+      };
+      if (ty == "uc") return go((unsigned char) u); if (ty == "us") return go((unsigned short) u);
+      if (ty == "u") return go((unsigned) u); if (ty == "ul") return go((unsigned long) u);
+      if (ty == "bool") return go((bool) u);
+      return go(u);
     }
     if (op == "stream") { B a = from_hex<k>(t[2]); std::ostringstream os; os << std::hex << a << "|" << 255 << "|" << a; return os.str(); }
     if (op == "streamsb") {
@@ -200,7 +315,12 @@ static std::string run(const std::vector<std::string>& t)
   catch (Dune::Exception&) { return "EXC Exception"; }
 }
 
-#define KS X(8) X(16) X(17) X(24) X(32) X(40) X(48) X(64) X(65) X(100) X(128) X(200)
+#ifdef C10_SAN_SUBSET
+// the ASan/UBSan build instantiates a subset of the widths (one digit, digit boundaries, n = 3, 4, 5, 8, 64): halves its compile time
+#define KS X(1) X(8) X(16) X(17) X(33) X(64) X(65) X(128) X(1024)
+#else
+#define KS X(1) X(8) X(15) X(16) X(17) X(24) X(32) X(33) X(40) X(48) X(63) X(64) X(65) X(100) X(128) X(200) X(1024)
+#endif
 
 int main(int argc, char** argv)
 {
